@@ -74,6 +74,15 @@ def run(ctx: core.Ctx):
                 ctx.violation(f"{h}.hedge/result-aliased", {"hedge": h}, "unchanged by a later call", "modified", note="an earlier result array was overwritten by a later call of the same shape")
             elif again.shape != arg.shape or not np.allclose(again.ravel(), V[::-1], rtol=0, atol=TOL, equal_nan=True):
                 ctx.violation(f"{h}.hedge/formula/second-{form}-call", {"hedge": h}, "table (reversed)", "differs")
+            # the caller's own array, updated in place between two calls (degrees[:] = ...), as a rule block reprocessing new inputs does
+            buf = arg.copy()
+            hs[h].hedge(buf)
+            buf[...] = arg.ravel()[::-1].reshape(arg.shape)
+            third = np.asarray(hs[h].hedge(buf), dtype=float)
+            ctx.count()
+            if third.shape != arg.shape or not np.allclose(third.ravel(), V[::-1], rtol=0, atol=TOL, equal_nan=True):
+                ctx.violation(f"{h}.hedge/formula/same-array-updated-in-place", {"hedge": h}, "table (reversed)", "differs",
+                              note="the same array object, updated in place between two calls, gives the result of its earlier contents")
         got = float(hs[h].hedge(math.nan))
         if h != "any" and not math.isnan(got):
             ctx.violation(f"{h}.hedge/nan", {"hedge": h, "x": "nan"}, "nan", got)
